@@ -48,6 +48,11 @@ def run(repo, rep):
     rule_state(repo, rep)
     rule_random(repo, rep)
     rule_order(repo, rep)
+    rep.clause("C14-d", "a compilation works on private copies of the model's constant data (it neither mutates the caller's buffer nor shares storage between tensors) [rule shared with C11-d3]")
+    from . import c11
+
+    with rep.borrow({"C11-d3": "C14-d"}):
+        c11.run(repo, rep)
 
 
 # ------------------------------------------------------------------ a
